@@ -79,7 +79,7 @@ def run_trace_property(prop, tier, seed, jobs, model_runs=(), assumptions=None, 
             for d in conf["drift_samples"][:3]:
                 print("DRIFT design-model prediction differs: cfg=%s tag=%s expected=%s observed=%s"
                       % (d["cfg"], d["header"].get("tag"), d["expected"], d["observed"]))
-        print("[%s] design-model conformance: %d of %d model-generated executions returned exactly the predicted addresses"
+        print("[%s] design-model conformance: %d of %d model-generated executions behaved exactly as the design model predicts (addresses / schedules)"
               % (prop, conf["matched"], conf["executions_with_model_prediction"]))
     kf_seen = {}
     for kf, v, job, xn in known:
